@@ -33,6 +33,7 @@ type op struct {
 	Fam   string
 	Group int    // ops of one argument tuple share a group
 	Std   string // expected result from the standard library (C02/C20), "" if none
+	StdRaw string // the standard library's answer on the raw arguments: oracle for the Lean models of the namesakes
 	NoS   bool   // the specification does not apply to this op (outside the property's domain)
 }
 
@@ -264,8 +265,8 @@ wait:
 			viols = append(viols, violation{Kind: "I!=A", Op: o.Line(), I: r.I, A: r.A, S: r.S, Fam: o.Fam})
 		}
 		// the Lean model of the standard-library namesake against the real standard library
-		if !*flagNoA && o.Std != "" && r.M != "-" && r.M != "" && r.M != o.Std {
-			viols = append(viols, violation{Kind: "std!=M", Op: o.Line(), I: r.I, A: r.A, S: r.S, Std: o.Std, Note: "std-model=" + r.M, Fam: o.Fam})
+		if !*flagNoA && o.StdRaw != "" && r.M != "-" && r.M != "" && r.M != o.StdRaw {
+			viols = append(viols, violation{Kind: "std!=M", Op: o.Line(), I: r.I, A: r.A, S: r.S, Std: o.StdRaw, Note: "std-model=" + r.M, Fam: o.Fam})
 		}
 	}
 	viols = append(viols, groupChecks(*flagProp, ops, results)...)
@@ -327,7 +328,7 @@ func report(viols []violation, ops []op, results []res, start time.Time, scale i
 		if r.S != "-" && r.S != "" && !o.NoS {
 			withS++
 		}
-		if r.M != "-" && r.M != "" && o.Std != "" {
+		if r.M != "-" && r.M != "" && o.StdRaw != "" {
 			withM++
 		}
 		if r.I != "" && !trivial(r.I) && len(o.Args) > 0 && o.Args[0] != "-" {
